@@ -8,11 +8,13 @@ CONSTANTS
   Banned = {"r2"}
   Asking = {}
   AskAnswersInHand = TRUE
+  DrainAfterStopped = TRUE
+  FilteredFailAnswers = FALSE
   BufCap = 3
   FixFlushOnStop = FALSE
   MaxResets = 1
   WithStop = TRUE
   Det = FALSE
-INVARIANTS TypeOK AtMostOnce NoLostRequest NoStuckSender PairingFIFO
+INVARIANTS TypeOK AtMostOnce NoLostRequest NoStuckSender PairingFIFO OwnReply
 PROPERTIES Answered QuitLeadsToDone StopReturns
 CHECK_DEADLOCK FALSE
